@@ -569,6 +569,11 @@ func TestCheck(t *testing.T) {
 	if os.Getenv("VERIF_REPLAY") == "" {
 		r.Watchdog(60 * time.Second)
 	}
+	var wf wfailT
+	if mon.ReplayCase(&wf) && wf.WFail {
+		judgeWFail(r, t, wf)
+		return
+	}
 	var sc scriptT
 	var bt burstT
 	if mon.ReplayCase(&bt) && bt.Burst {
@@ -578,6 +583,11 @@ func TestCheck(t *testing.T) {
 	if mon.ReplayCase(&sc) {
 		judge(r, t, sc, map[bool]string{true: "gap", false: "model"}[sc.Gap])
 		return
+	}
+	for i, wf := range wfailGrid() {
+		if r.Mine(i) {
+			judgeWFail(r, t, wf)
+		}
 	}
 	for i, b := range burstGrid() {
 		if r.Mine(i) {
